@@ -32,6 +32,10 @@ const (
 
 	// ToBeForceRemovedByAutoscalerKey specifies the key used to mark a node for force removal
 	ToBeForceRemovedByAutoscalerKey = "atlassian.com/escalator-force"
+
+	// maxTaintTimestamp is the largest Unix time in seconds that time.Unix can represent;
+	// beyond it the conversion wraps around to a time in the distant past
+	maxTaintTimestamp = 1<<63 - 1 - 62135596800
 )
 
 // AddToBeRemovedTaint takes a k8s node and adds the ToBeRemovedByAutoscaler taint to the node
@@ -107,6 +111,9 @@ func GetToBeRemovedTime(node *apiv1.Node) (*time.Time, error) {
 		timestamp, err := strconv.ParseInt(taint.Value, 10, 64)
 		if err != nil {
 			return nil, err
+		}
+		if timestamp > maxTaintTimestamp {
+			return nil, fmt.Errorf("taint value %v is out of range for a unix timestamp", taint.Value)
 		}
 		result := time.Unix(timestamp, 0)
 		return &result, nil
